@@ -686,8 +686,12 @@ static IsoCase gen_iso(Choice& ch, int size) {
     o.gappy = true;
     Spec graph = gen_spec(ch, o, std::max(size, 15));
     int np = 2 + ch.draw(2);
-    std::vector<std::string> pool = {"chk_vec", "fast_vec", "map",
-                                     "nohash_vec", "chk_vec_ind"};
+    // several policies rebound from the same stock policy are in the pool on
+    // purpose (debug: chk_vec bc_err proj_chk; release: fast_vec map
+    // nohash_vec): a facet left un-rebound would be shared between them
+    std::vector<std::string> pool = {"chk_vec",    "fast_vec",    "map",
+                                     "nohash_vec", "chk_vec_ind", "bc_err",
+                                     "proj_chk"};
     for (int i = 0; i < np; ++i) {
         SpecCase pc;
         std::size_t k = ch.draw(pool.size());
